@@ -63,13 +63,51 @@ def peel(df: DataFlow, at: int, e: ast.AST, depth: int = 0):
 
 
 def origin_param(df: DataFlow, at: int, e: ast.AST):
-    """Parameter name a value is a reshaped copy of, else None."""
+    """Parameter name a value is a reshaped copy of, else None.  A variable with several reaching definitions
+    (`if x.ndim == 1: x = x[:, None, None]`) is a reshaped copy of p when every definition is."""
+    got = _origins(df, at, e, 0, set())
+    return next(iter(got)) if len(got) == 1 and None not in got else None
+
+
+def _shape_only_subscript(s: ast.Subscript) -> bool:
+    idx = s.slice.elts if isinstance(s.slice, ast.Tuple) else [s.slice]
+    for i in idx:
+        if isinstance(i, ast.Constant) and (i.value is None or i.value is Ellipsis):
+            continue
+        if isinstance(i, ast.Slice) and i.lower is None and i.upper is None and i.step is None:
+            continue
+        return False
+    return True
+
+
+def _origins(df: DataFlow, at: int, e: ast.AST, depth: int, seen: set) -> set:
+    if depth > 12:
+        return {None}
     e2, at2 = peel(df, at, e)
+    while isinstance(e2, ast.Subscript) and _shape_only_subscript(e2):
+        e2, at2 = peel(df, at2, e2.value)
     if isinstance(e2, ast.Name):
-        rd = df.reaching(at2, e2.id)
-        if len(rd) == 1 and rd[0].kind == "param":
-            return e2.id
-    return None
+        out = set()
+        for d in df.reaching(at2, e2.id):
+            if d.kind == "param":
+                out.add(e2.id)
+            elif d.kind in ("assign", "walrus") and d.value is not None and (d.node, e2.id) not in seen:
+                seen.add((d.node, e2.id))
+                st = df.cfg.nodes[d.node].ast
+                v = d.value
+                if isinstance(st, ast.Assign) and isinstance(st.targets[0], (ast.Tuple, ast.List)) and \
+                        isinstance(v, ast.Call) and last_attr(v) in POSITIONAL_IDENTITY:
+                    idx = [i for i, t in enumerate(st.targets[0].elts) if dotted(t) == e2.id]
+                    if len(idx) == 1 and len(v.args) > idx[0]:
+                        v = v.args[idx[0]]
+                    else:
+                        out.add(None)
+                        continue
+                out |= _origins(df, d.node, v, depth + 1, seen)
+            elif d.strong:
+                out.add(None)
+        return out or {None}
+    return {None}
 
 
 def single_return(f):
@@ -604,7 +642,7 @@ def run(ctx) -> None:  # noqa: F811
              "alpha/phi to the aperture, the envelopes and the aberrations, so a kernel that squares alpha in place "
              "changes what the next component sees")
     repo = ctx.repo
-    own = Ownership(repo)
+    own = Ownership(repo, max_candidates=20)  # all kernels named _evaluate_from_angular_grid are followed
     mod = repo.modules["abtem.transfer"]
     kernels = [f for c in mod.classes.values() for defs in c.methods.values() for f in defs
                if f.name == "_evaluate_from_angular_grid" and not f.is_abstract]
@@ -655,3 +693,65 @@ def run(ctx) -> None:  # noqa: F811
                   "changed, and the CTF passes the same grid on to its other components" if bad else "",
                   key_detail="argpure")
     _inner_run_c23b(ctx)
+
+
+# ---- added: both aperture kernels give a distribution of cutoffs its own leading axis (found on the tree)
+_inner_run_c23c = run
+
+
+def run(ctx) -> None:  # noqa: F811
+    import ast as _ast
+
+    from ..cfg import DataFlow as _DF
+    from ..model import call_name as _cn, norm_text as _nt, walk_no_nested as _walk
+
+    ctx.rule("R-CUTOFFAXIS", "sibling agreement of soft_aperture and hard_aperture: the cutoff that is compared with / "
+             "subtracted from alpha is the first result of expand_dims_to_broadcast(<cutoff>, <alpha>) — a 1-d array "
+             "of cutoffs (a distribution) gets its own leading axis in front of the angular grid.  Comparing the raw "
+             "cutoff array with the 2-d grid raises for most lengths and broadcasts along the last grid axis when the "
+             "length happens to equal gpts[1]")
+    repo = ctx.repo
+    for name in ("soft_aperture", "hard_aperture"):
+        f = repo.function("abtem.transfer", name)
+        df = _DF(f.node)
+        alpha = f.positional_params[0]
+        cut = next((p for p in f.positional_params if "cutoff" in p), None)
+        ctx.require(cut is not None, f"{f.qualname}: cutoff parameter not found")
+        calls = [c for c in _walk(f.node) if isinstance(c, _ast.Call) and _cn(c) == "expand_dims_to_broadcast"
+                 and len(c.args) >= 2]
+        ok = False
+        for c in calls:
+            st = next(s for s in _walk(f.node) if isinstance(s, _ast.stmt) and any(x is c for x in _ast.walk(s))
+                      and not isinstance(s, (_ast.If, _ast.For, _ast.With, _ast.Try, _ast.FunctionDef)))
+            at = df.cfg.node_of(st).idx
+            s0 = df.backward_slice(at, c.args[0])
+            s1 = df.backward_slice(at, c.args[1])
+            if cut in s0.params and alpha in s1.params and phi_free(s1, f):
+                ok = True
+        # equivalent idioms: cutoff[:, None, None], xp.expand_dims(cutoff, ...), cutoff.reshape(-1, 1, 1)
+        for n_ in _walk(f.node):
+            tgt = None
+            if isinstance(n_, _ast.Subscript):
+                idx = n_.slice.elts if isinstance(n_.slice, _ast.Tuple) else [n_.slice]
+                if any(isinstance(i_, _ast.Constant) and i_.value is None for i_ in idx):
+                    tgt = n_.value
+            elif isinstance(n_, _ast.Call) and (_cn(n_) or "").split(".")[-1] in ("expand_dims", "reshape") and (
+                    n_.args or isinstance(n_.func, _ast.Attribute)):
+                tgt = n_.args[0] if (_cn(n_) or "").split(".")[-1] == "expand_dims" or not isinstance(
+                    n_.func, _ast.Attribute) or (_cn(n_) or "").split(".")[0] in ("np", "xp") else n_.func.value
+            if tgt is not None:
+                st_ = next((s_ for s_ in _walk(f.node) if isinstance(s_, _ast.stmt) and any(x is n_ for x in _ast.walk(s_))
+                            and not isinstance(s_, (_ast.If, _ast.For, _ast.With, _ast.Try, _ast.FunctionDef))), None)
+                if st_ is not None and cut in df.backward_slice(df.cfg.node_of(st_).idx, tgt).params:
+                    ok = True
+        ctx.check(ok, "R-CUTOFFAXIS", f"{f.qualname}:cutoff broadcast against alpha", f.where,
+                  "the cutoff is expanded against the angular grid with expand_dims_to_broadcast",
+                  f"{name} never calls expand_dims_to_broadcast(<{cut}>, <{alpha}>): an array of cutoffs is compared "
+                  "with the 2-d angular grid as it is — a distribution of cutoffs raises or, for len == gpts[1], is "
+                  "broadcast along a grid axis", key_detail="cutoff-axis")
+    _inner_run_c23c(ctx)
+
+
+def phi_free(sl, f) -> bool:
+    """the second operand is the radial grid (alpha), not the azimuth"""
+    return not any(p.startswith("phi") for p in sl.params)
